@@ -48,8 +48,21 @@ RunResult run_plan(const Plan &plan, Stats *total, bool want_allocs) {
         if (!c.skipped) { rs.ops++; if (g_sites) { simrt::Hash sh; sh.str(c.site.c_str()); g_sites->insert(sh.h); } }
         if (want_allocs) { rr.allocs.push_back(c.op_allocs); rr.skipped.push_back(c.skipped ? 1 : 0); }
         set_fatal_ctx(c, op);
+        const bool fault_fired = (op.fault & F_ALLOC) && c.fired;
         check_all(c);
         if (c.viol.set) { rr.step = (int)i; break; }
+        // what a caller does after std::bad_alloc: the same call again.  Half of the operations whose allocation fault fired are repeated at once
+        // without it, on the same objects ("can still be read, assigned to": and what comes out is judged like any other step)
+        if (fault_fired && !c.skipped && ((op.fa + i) & 1) == 0) {
+            Op again = op; again.fault &= (uint8_t)~F_ALLOC; again.fa = 0;
+            c.skipped = false; c.budget_bytes = 0; c.site = op_name(again.kind); c.op_allocs = 0;
+            set_fatal_ctx(c, again);
+            if (!exec_op(c, again)) { set_viol(c, "internal", std::string("no executor for op ") + op_name(again.kind)); break; }
+            if (!c.skipped) { rs.ops++; probe(c, PR_RETRY_AFTER_BAD_ALLOC); }
+            set_fatal_ctx(c, again);
+            check_all(c);
+            if (c.viol.set) { rr.step = (int)i; break; }
+        }
     }
     // tear down: every object is destroyed by library code, then the ledger must be empty
     c.site = c.viol.set ? c.viol.site : "teardown";
